@@ -35,7 +35,7 @@ PendingAfter(pending, c) == ~pending /\ c = c_bslash
 
 RECURSIVE EscapeAll(_, _)
 EscapeAll(pending, v) ==     \* the whole emitted text between the quotes
-    IF v = <<>> THEN (IF pending THEN <<c_bslash>> ELSE <<>>)        \* next(iterator, "") at the end
+    IF v = <<>> THEN <<>>          \* a lone trailing backslash has nothing to escape and is dropped
     ELSE EmitFor(pending, Head(v)) \o EscapeAll(PendingAfter(pending, Head(v)), Tail(v))
 
 (* decoded value of a well-formed emitted literal (simple escapes only) *)
